@@ -65,7 +65,7 @@ class C01(SeqProp):
     ]
 
     def pick_focus(self, rng):
-        return rng.choice(["limits", "limits", "limits", None, "eom"])
+        return rng.choice(["limits", "limits", "limits", None, "eom", "dmm"])
 
     def oracle_init(self, case):
         return dict(prev={})
